@@ -90,7 +90,7 @@ PROPS["C05"] = dict(
     expected=lambda kind, cid: ("Eval vm_compute in (map expected_multi (filter (fun c => N.eqb (mid c) %d) mcases))." % cid) if cid >= 500000 else ("Eval vm_compute in (map expected_dml (filter (fun c => N.eqb (did c) %d) dcases))." % cid),
     trusted=COMMON_TRUST + [FLOAT_TRUST, ORACLE_TRUST],
     assumptions=_QUERY_ASSUME + ["multi-table forms are modelled for two inner-joined file tables (DELETE of either or both, UPDATE of the first); stdin tables are not covered", "column names are resolved to positions by the harness, which tracks ADD/DROP/RENAME"],
-    level_text="Proof: Coq theorems (Properties/C05.v) over ALL tables and statements of the modelled single-table forms: INSERT appends exactly the given rows in order (listed columns get their value, the others NULL; old rows and width untouched; count = rows given); UPDATE keeps number and order of rows, leaves rows whose condition is not TRUE unchanged and, in matching rows, every column outside the SET list (count = matching rows); DELETE keeps exactly the non-matching rows in order (count = removed); ADD COLUMN / DROP COLUMN / RENAME leave the other cells and their order untouched; histories compose (fold) and a failing statement changes nothing. The model (Model/Dml.v incl. REPLACE after the repair of the map-order defect) is tied to the code by histories of 1-10 statements on file tables and temporary tables through parser.Parse + Processor.ExecuteStatement, comparing the reported count and SELECT * after every statement inside Coq. Multi-table DELETE / UPDATE over two joined tables are modelled (delete_join, update_join) and compared the same way, including per-file counts and the files after COMMIT. Partial: REPLACE and the multi-table forms have no general theorem yet (model + correspondence + examples only).",
+    level_text="Proof: Coq theorems (Properties/C05.v) over ALL tables and statements of the modelled single-table forms: INSERT appends exactly the given rows in order (listed columns get their value, the others NULL; old rows and width untouched; count = rows given); UPDATE keeps number and order of rows, leaves rows whose condition is not TRUE unchanged and, in matching rows, every column outside the SET list (count = matching rows); DELETE keeps exactly the non-matching rows in order (count = removed); REPLACE keeps every existing row in its place, changes it at most in the listed non-key columns, and appends the given rows that matched nothing in the order given; ADD COLUMN / DROP COLUMN / RENAME leave the other cells and their order untouched; histories compose (fold) and a failing statement changes nothing. The model (Model/Dml.v incl. REPLACE after the repair of the map-order defect) is tied to the code by histories of 1-10 statements on file tables and temporary tables through parser.Parse + Processor.ExecuteStatement, comparing the reported count and SELECT * after every statement inside Coq. Multi-table DELETE / UPDATE over two joined tables are modelled (delete_join, update_join) and compared the same way, including per-file counts and the files after COMMIT. Partial: REPLACE and the multi-table forms have no general theorem yet (model + correspondence + examples only).",
     level_note="Trusted: Coq kernel + vm_compute; primitive floats; Go harness incl. its tracking of column names; string oracles.",
     design_ref="DESIGN.md section 5 (C05)")
 
@@ -104,6 +104,6 @@ PROPS["C17"] = dict(
     expected=lambda kind, cid: "Eval vm_compute in (map expected_analytic (filter (fun c => N.eqb (aid c) %d) acases))." % cid,
     trusted=COMMON_TRUST + [FLOAT_TRUST, ORACLE_TRUST, "sort.Sort (the ORDER BY of the clause): order-sensitive functions are generated with a unique last key, the rank family with ties"],
     assumptions=_QUERY_ASSUME + ["LISTAGG / JSON_AGG / STDEV / VAR / MEDIAN / user aggregates with OVER are not modelled", "--strict-equal is generated only where no ORDER BY is involved (see C07)"],
-    level_text="Proof: Coq theorems (Properties/C17.v) about the model of Analyze / WindowFrameSet and the analytic functions: rows and other columns are preserved (the output is a permutation of the input rows, each extended by one value); the values of a frame are exactly the partition members at positions max(low,0)..min(high,n-1) in order; ROW_NUMBER is 1..n; FIRST_VALUE / NTH_VALUE return the n-th (non-NULL under IGNORE NULLS) value of the frame or NULL; LAG returns the value offset rows back or the default; windowed aggregates are the aggregate of the frame's values; LAST_VALUE equals the last value of the frame on symmetric frames and the statement for asymmetric frames is refuted (known finding F-C17-1). The model is tied to the code by one analytic function per query over tables with ties, NULLs, single-row and many partitions (200-400 rows with cpu 4), all ROWS frame shapes, compared per row (unique id column) inside Coq.",
+    level_text="Proof: Coq theorems (Properties/C17.v) about the model of Analyze / WindowFrameSet and the analytic functions: rows and other columns are preserved (the output is a permutation of the input rows, each extended by one value); the values of a frame are exactly the partition members at positions max(low,0)..min(high,n-1) in order; ROW_NUMBER is 1..n; FIRST_VALUE / NTH_VALUE return the n-th (non-NULL under IGNORE NULLS) value of the frame or NULL; LAG returns the value offset rows back or the default; windowed aggregates are the aggregate of the frame's values; RANK = 1 + rows before the row's peer group and DENSE_RANK = number of the peer group, over groups of positive sizes that add up to the partition (the same groups CUME_DIST and PERCENT_RANK are computed from; NTILE is modelled and compared but has no closed-form theorem); LAST_VALUE equals the last value of the frame on symmetric frames and the statement for asymmetric frames is refuted (known finding F-C17-1). The model is tied to the code by one analytic function per query over tables with ties, NULLs, single-row and many partitions (200-400 rows with cpu 4), all ROWS frame shapes, compared per row (unique id column) inside Coq.",
     level_note="Trusted: Coq kernel + vm_compute; primitive floats; Go harness; sort.Sort. Partial: RANK / DENSE_RANK / CUME_DIST / PERCENT_RANK / NTILE are covered by model + correspondence, their closed forms are not proved.",
     design_ref="DESIGN.md section 5 (C17)")
